@@ -96,6 +96,7 @@ PROOF_UNITS = {
            + [('contracts.parsers', 'ParseSnapshots', (cls,), {}) for cls in ('DynGraph', 'DynDiGraph')],
     'C16': [('contracts.convert', 'ToDirected', (), {})] + [('contracts.ctor', 'Init', ('DynDiGraph',), {'edge_removal': 'default'})],
     'C10': [('contracts.writers', 'GenerateInteractions', (cls,), {}) for cls in ('DynGraph', 'DynDiGraph')]
+           + [('contracts.parsers', 'ParseInteractions', (cls,), {}) for cls in ('DynGraph', 'DynDiGraph')]
            + [('contracts.stream', 'StreamInteractions', (cls,), {}) for cls in ('DynGraph', 'DynDiGraph')],
     'C11': [('contracts.writers', 'NodeLinkData', (cls,), {}) for cls in ('DynGraph', 'DynDiGraph')]
            + [('contracts.parsers', 'NodeLinkGraph', (fl,), {}) for fl in ('undirected', 'directed')],
@@ -107,7 +108,7 @@ PROOF_UNITS = {
            + [('contracts.iters', 'InteractionsIter', ('DynGraph',), {'t': 'none'}), ('contracts.iters', 'OutInteractionsIter', ('DynDiGraph',), {'t': 'none'})]
            + [('contracts.ctor', 'Init', (cls,), {'edge_removal': e}) for cls in ('DynGraph', 'DynDiGraph') for e in ('default', 'given')],
     'C08': _kernel_units('accum') + _observer_units('accum'),
-    'C18': [('contracts.pure', 'CompactTimeslot', (), {})] + [('contracts.parsers', 'ParseSnapshots', (cls,), {}) for cls in ('DynGraph', 'DynDiGraph')],
+    'C18': [('contracts.pure', 'CompactTimeslot', (), {})] + [('contracts.parsers', k, (cls,), {}) for k in ('ParseSnapshots', 'ParseInteractions') for cls in ('DynGraph', 'DynDiGraph')],
 }
 
 def _fw(names):
